@@ -114,6 +114,72 @@ enum Val {
     Bytes(Vec<u8>),
 }
 
+
+// ---------------------------------------------------------------------------------------------
+// Murmur3 preimages: keys whose raw token is a chosen value (in particular i64::MIN, the one value
+// `Token::new` normalises). One 16-byte block of Murmur3 x64_128 is invertible given the state before
+// it, so such keys can be constructed instead of waited for (1 in 2^64 random keys).
+// ---------------------------------------------------------------------------------------------
+
+fn inv_u64(a: u64) -> u64 {
+    // Newton iteration for the inverse of an odd number modulo 2^64
+    let mut x = a;
+    for _ in 0..6 {
+        x = x.wrapping_mul(2u64.wrapping_sub(a.wrapping_mul(x)));
+    }
+    x
+}
+
+fn inv_fmix(mut k: u64) -> u64 {
+    k ^= k >> 33;
+    k = k.wrapping_mul(inv_u64(0xc4ceb9fe1a85ec53));
+    k ^= k >> 33;
+    k = k.wrapping_mul(inv_u64(0xff51afd7ed558ccd));
+    k ^= k >> 33;
+    k
+}
+
+/// A key `prefix ++ block` (prefix.len() a multiple of 16) whose raw Murmur3 h1 is `target`;
+/// `free` selects among the 2^64 solutions.
+pub fn murmur3_preimage(prefix: &[u8], target: u64, free: u64) -> Vec<u8> {
+    const C1: u64 = 0x87c37b91114253d5;
+    const C2: u64 = 0x4cf5ad432745937f;
+    assert!(prefix.len() % 16 == 0);
+    // state before the last block: run the blocks of the prefix forward
+    let (mut h1, mut h2) = (0u64, 0u64);
+    for blk in prefix.chunks(16) {
+        let mut k1 = u64::from_le_bytes(blk[0..8].try_into().unwrap());
+        let mut k2 = u64::from_le_bytes(blk[8..16].try_into().unwrap());
+        k1 = k1.wrapping_mul(C1).rotate_left(31).wrapping_mul(C2);
+        h1 ^= k1;
+        h1 = h1.rotate_left(27).wrapping_add(h2).wrapping_mul(5).wrapping_add(0x52dce729);
+        k2 = k2.wrapping_mul(C2).rotate_left(33).wrapping_mul(C1);
+        h2 ^= k2;
+        h2 = h2.rotate_left(31).wrapping_add(h1).wrapping_mul(5).wrapping_add(0x38495ab5);
+    }
+    let (h1p, h2p) = (h1, h2);
+    let total = (prefix.len() + 16) as u64;
+    // invert the finalisation: final = fmix(a) + fmix(b), a = h1x + h2x, b = h2x + a
+    let b = free;
+    let fa = target.wrapping_sub(ref_fmix(b));
+    let a = inv_fmix(fa);
+    let h2x = b.wrapping_sub(a);
+    let h1x = a.wrapping_sub(h2x);
+    let (h1n, h2n) = (h1x ^ total, h2x ^ total);
+    // invert the block step
+    let inv5 = inv_u64(5);
+    let t2 = h2n.wrapping_sub(0x38495ab5).wrapping_mul(inv5).wrapping_sub(h1n).rotate_right(31);
+    let k2m = t2 ^ h2p;
+    let k2 = k2m.wrapping_mul(inv_u64(C1)).rotate_right(33).wrapping_mul(inv_u64(C2));
+    let t1 = h1n.wrapping_sub(0x52dce729).wrapping_mul(inv5).wrapping_sub(h2p).rotate_right(27);
+    let k1m = t1 ^ h1p;
+    let k1 = k1m.wrapping_mul(inv_u64(C2)).rotate_right(31).wrapping_mul(inv_u64(C1));
+    let mut key = prefix.to_vec();
+    key.extend_from_slice(&k1.to_le_bytes());
+    key.extend_from_slice(&k2.to_le_bytes());
+    key
+}
+
 fn pattern_bytes(len: usize, b: u8) -> Vec<u8> {
     (0..len).map(|i| ((b as usize + 7 * i) % 256) as u8).collect()
 }
@@ -359,6 +425,24 @@ pub fn generate(rng: &mut Rng, tier: Tier, emit: &mut dyn FnMut(String)) {
             emit(format!("hash {} {}", hex(&data), nat_list(&vec![1usize; len])));
             for cut in 0..=len {
                 emit(format!("hash {} {}", hex(&data), nat_list(&[cut, len - cut])));
+            }
+        }
+    }
+
+    // constructed preimages of the boundary tokens: raw hash = i64::MIN (normalised to MAX by Token::new),
+    // MIN + 1, MAX, -1, 0 - with 0..2 random full blocks in front, one-shot and chunked
+    for i in 0..(40 * scale as u64) {
+        for target in [1u64 << 63, (1u64 << 63) + 1, (1u64 << 63) - 1, u64::MAX, 0] {
+            let nblocks = (i % 3) as usize;
+            let prefix = gen_bytes(rng, 16 * nblocks);
+            let key = murmur3_preimage(&prefix, target, rng.next());
+            debug_assert_eq!(key.len(), 16 * (nblocks + 1));
+            let chunking = gen_chunking(rng, key.len());
+            emit(format!("hash {} {}", hex(&key), nat_list(&[key.len()])));
+            emit(format!("hash {} {}", hex(&key), nat_list(&chunking)));
+            if target == 1u64 << 63 && key.len() < 65536 {
+                // the same key through the partition-key / token paths (single component = raw bytes)
+                emit(format!("ptoken 0 {}", hex(&key)));
             }
         }
     }
